@@ -15,6 +15,18 @@
 //!   9                                     panic
 //! kinds:
 //!   prog <0|1 program> <order|-> <cap> <pdl>   order = canonical indices in construction order
+//!   progf <mode> <0|1 program> <order|-> <cap> <pdl>   as `prog`, with another finalisation strategy:
+//!                                              0 root.finalize_types_non_program() then node by node (= prog)
+//!                                              1 no whole-program pass: Arrow::finalize (source, target) of every
+//!                                                node in REVERSE construction order (roots first: the deepest
+//!                                                not-yet-completed bounds reach Type::finalize / the occurs check)
+//!                                              2 as 1 but target before source
+//!                                              3 node by node in canonical order, target before source
+//!   incs <0|1 program> <order|-> <pdl>         Type::to_incomplete of every node's source and target after
+//!                                              construction, BEFORE any finalisation:
+//!                                              0 (5 | 4 <src> <tgt>)* with 7 = free variable, 8 = <self-reference>,
+//!                                              6 = more than 5000 numbers, otherwise the type numbers (ground
+//!                                              words abbreviated as in `prog::ty_nums`)
 //!   deep <variant> <N>                         F-C02 family built from a parameter (see `deep`)
 //!   tydisp <type>                              -> 0 0 0 <bytes> <chars> of `Final`'s Display
 //!   incdisp <0|1 program> <pdl> <node> <0|1 target> -> Display of the node's (incomplete) type:
@@ -301,7 +313,7 @@ fn err_outcome(e: &types::Error, stage: u128, cap: usize) -> Outcome {
     Outcome { dlen, fsz: error_final_size(e), canon: vec![1, class_code(e), stage] }
 }
 
-fn infer_case(specs: &[NodeSpec], order: Option<Vec<usize>>, program: bool, cap: usize) -> Outcome {
+fn infer_case(specs: &[NodeSpec], order: Option<Vec<usize>>, program: bool, cap: usize, fmode: u32) -> Outcome {
     let n = specs.len();
     let order: Vec<usize> = order.unwrap_or_else(|| (0..n).collect());
     let (table, pos) = match permute(specs, &order) {
@@ -330,9 +342,40 @@ fn infer_case(specs: &[NodeSpec], order: Option<Vec<usize>>, program: bool, cap:
                 }
             }
         }
-        if let Some(r) = root {
-            if let Err(e) = r.finalize_types_non_program() {
-                return err_outcome(&e, 2, cap);
+        match fmode {
+            0 => {
+                if let Some(r) = root {
+                    if let Err(e) = r.finalize_types_non_program() {
+                        return err_outcome(&e, 2, cap);
+                    }
+                }
+            }
+            1 | 2 => {
+                for nd in nodes.iter().rev().flatten() {
+                    let (a, b) = if fmode == 1 {
+                        (&nd.arrow().source, &nd.arrow().target)
+                    } else {
+                        (&nd.arrow().target, &nd.arrow().source)
+                    };
+                    if let Err(e) = a.finalize() {
+                        return err_outcome(&e, 2, cap);
+                    }
+                    if let Err(e) = b.finalize() {
+                        return err_outcome(&e, 2, cap);
+                    }
+                }
+            }
+            _ => {
+                for i in 0..n {
+                    if let Some(nd) = nodes[pos[i]].as_ref() {
+                        if let Err(e) = nd.arrow().target.finalize() {
+                            return err_outcome(&e, 2, cap);
+                        }
+                        if let Err(e) = nd.arrow().source.finalize() {
+                            return err_outcome(&e, 2, cap);
+                        }
+                    }
+                }
             }
         }
         let mut out: Vec<u128> = vec![0];
@@ -351,6 +394,162 @@ fn infer_case(specs: &[NodeSpec], order: Option<Vec<usize>>, program: bool, cap:
                     out.push(4);
                     prog::ty_nums(&s, &mut out);
                     prog::ty_nums(&t, &mut out);
+                }
+            }
+        }
+        Outcome { dlen: 0, fsz: 0, canon: out }
+    })
+}
+
+/// upper bound on the length of `prog::ty_nums` of a complete type (a word counts 2), saturating,
+/// memoised on the pointer
+fn final_nums_size(t: &Arc<Final>, memo: &mut HashMap<*const Final, u64>) -> u64 {
+    let mut stack: Vec<(&Arc<Final>, bool)> = vec![(t, false)];
+    while let Some((x, done)) = stack.pop() {
+        let key = Arc::as_ptr(x);
+        if memo.contains_key(&key) {
+            continue;
+        }
+        if x.as_word().is_some() {
+            memo.insert(key, 3);
+            continue;
+        }
+        match x.as_sum().or_else(|| x.as_product()) {
+            None => {
+                memo.insert(key, 1);
+            }
+            Some((a, b)) => {
+                if done {
+                    let sa = memo[&Arc::as_ptr(a)];
+                    let sb = memo[&Arc::as_ptr(b)];
+                    memo.insert(key, sa.saturating_add(sb).saturating_add(1));
+                } else {
+                    stack.push((x, true));
+                    stack.push((b, false));
+                    stack.push((a, false));
+                }
+            }
+        }
+    }
+    memo[&Arc::as_ptr(t)]
+}
+
+/// upper bound on the length of `inc_nums` (saturating, memoised on the pointer)
+fn inc_tree_size(i: &Arc<Incomplete>, memo: &mut HashMap<*const Incomplete, u64>, fmemo: &mut HashMap<*const Final, u64>) -> u64 {
+    let mut stack: Vec<(&Arc<Incomplete>, bool)> = vec![(i, false)];
+    while let Some((x, done)) = stack.pop() {
+        let key = Arc::as_ptr(x);
+        if memo.contains_key(&key) {
+            continue;
+        }
+        match &**x {
+            Incomplete::Free(_) | Incomplete::Cycle => {
+                memo.insert(key, 1);
+            }
+            Incomplete::Final(f) => {
+                let s = final_nums_size(f, fmemo);
+                memo.insert(key, s);
+            }
+            Incomplete::Sum(a, b) | Incomplete::Product(a, b) => {
+                if done {
+                    let sa = memo[&Arc::as_ptr(a)];
+                    let sb = memo[&Arc::as_ptr(b)];
+                    memo.insert(key, sa.saturating_add(sb).saturating_add(1));
+                } else {
+                    stack.push((x, true));
+                    stack.push((b, false));
+                    stack.push((a, false));
+                }
+            }
+        }
+    }
+    memo[&Arc::as_ptr(i)]
+}
+
+/// numbers of a (small) `Incomplete`: (Some(d) if the subtree is the ground word 2^(2^d), numbers)
+fn inc_nums(i: &Incomplete) -> (Option<u128>, Vec<u128>) {
+    match i {
+        Incomplete::Free(_) => (None, vec![7]),
+        Incomplete::Cycle => (None, vec![8]),
+        Incomplete::Final(f) => {
+            let mut v = vec![];
+            prog::ty_nums(f, &mut v);
+            (f.as_word().map(|d| d as u128), v)
+        }
+        Incomplete::Sum(a, b) => {
+            let (_, la) = inc_nums(a);
+            let (_, lb) = inc_nums(b);
+            if la == [0] && lb == [0] {
+                (Some(0), vec![1, 0, 0])
+            } else {
+                let mut v = vec![1];
+                v.extend(la);
+                v.extend(lb);
+                (None, v)
+            }
+        }
+        Incomplete::Product(a, b) => {
+            let (wa, la) = inc_nums(a);
+            let (wb, lb) = inc_nums(b);
+            match (wa, wb) {
+                (Some(x), Some(y)) if x == y && x + 1 < 32 => (Some(x + 1), vec![3, x + 1]),
+                _ => {
+                    let mut v = vec![2];
+                    v.extend(la);
+                    v.extend(lb);
+                    (None, v)
+                }
+            }
+        }
+    }
+}
+
+fn inc_out(t: &types::Type, out: &mut Vec<u128>) {
+    let inc = t.to_incomplete();
+    let mut memo = HashMap::new();
+    let mut fmemo = HashMap::new();
+    if inc_tree_size(&inc, &mut memo, &mut fmemo) > 5000 {
+        out.push(6);
+    } else {
+        out.extend(inc_nums(&inc).1);
+    }
+}
+
+fn incs_case(specs: &[NodeSpec], order: Option<Vec<usize>>, program: bool) -> Outcome {
+    let n = specs.len();
+    let order: Vec<usize> = order.unwrap_or_else(|| (0..n).collect());
+    let shape = Outcome { dlen: 0, fsz: 0, canon: vec![1, 11, 0] };
+    let (table, pos) = match permute(specs, &order) {
+        Some(x) => x,
+        None => return shape,
+    };
+    if !shape_ok(&table) || (program && matches!(specs[n - 1], NodeSpec::Hidden(_))) {
+        return shape;
+    }
+    types::Context::with_context(|ctx| {
+        let nodes = match build_keep(&ctx, &table) {
+            Ok(x) => x,
+            Err(Fail::Shape) => return Outcome { dlen: 0, fsz: 0, canon: vec![1, 11, 0] },
+            Err(Fail::Type(e, st)) => return err_outcome(&e, st, 1 << 20),
+        };
+        if program {
+            match nodes[pos[n - 1]].as_ref() {
+                None => return Outcome { dlen: 0, fsz: 0, canon: vec![1, 11, 0] },
+                Some(r) => {
+                    if let Err(e) = r.set_arrow_to_program() {
+                        return err_outcome(&e, 1, 1 << 20);
+                    }
+                }
+            }
+        }
+        let mut out: Vec<u128> = vec![0];
+        for i in 0..n {
+            match nodes[pos[i]].as_ref() {
+                None => out.push(5),
+                Some(nd) => {
+                    out.push(4);
+                    inc_out(&nd.arrow().source, &mut out);
+                    inc_out(&nd.arrow().target, &mut out);
                 }
             }
         }
@@ -420,7 +619,29 @@ fn run_inner(t: &[&str]) -> Outcome {
             };
             let cap: usize = t[3].parse().expect("cap");
             let specs = prog::parse_prog(t[4]);
-            infer_case(&specs, order, program, cap)
+            infer_case(&specs, order, program, cap, 0)
+        }
+        "progf" => {
+            let fmode: u32 = t[1].parse().expect("mode");
+            let program = t[2] == "1";
+            let order = if t[3] == "-" {
+                None
+            } else {
+                Some(t[3].split(',').map(|x| x.parse().expect("order index")).collect())
+            };
+            let cap: usize = t[4].parse().expect("cap");
+            let specs = prog::parse_prog(t[5]);
+            infer_case(&specs, order, program, cap, fmode)
+        }
+        "incs" => {
+            let program = t[1] == "1";
+            let order = if t[2] == "-" {
+                None
+            } else {
+                Some(t[2].split(',').map(|x| x.parse().expect("order index")).collect())
+            };
+            let specs = prog::parse_prog(t[3]);
+            incs_case(&specs, order, program)
         }
         "deep" => {
             let variant: u32 = t[1].parse().unwrap();
